@@ -228,10 +228,26 @@ func (s *Sys) execCrash(op []string) string {
 	if op[0] == "prune" {
 		pruneTo = int(atoi(op[1]))
 	}
+	// every prefix is explored even after a symptom was seen: the result names every kind of
+	// symptom (in order of first occurrence) and the first position
+	var kinds []string
+	firstAt := 0
+	note := func(kind string, i int) {
+		for _, k := range kinds {
+			if k == kind {
+				return
+			}
+		}
+		if len(kinds) == 0 {
+			firstAt = i
+		}
+		kinds = append(kinds, kind)
+	}
 	for i := 1; i < n; i++ {
 		dT, err := dumpOf(i)
 		if err != nil {
-			return fmt.Sprintf("cr(viol,op=%s,i=%d/%d,kind=loaderr);%s", op[0], i, n, res)
+			note("loaderr", i)
+			continue
 		}
 		d := dT.String()
 		isOld, isNew := d == oldD, d == newD
@@ -249,6 +265,17 @@ func (s *Sys) execCrash(op []string) string {
 			kind := "mixture"
 			if dT.walkOnly() == oldT.walkOnly() {
 				kind = "indexahead" // the tree is still the old one, only index-served reads differ
+				// the recorded finding is an index whose entries are ahead while its label still
+				// names the (old) latest version; an index labelled with ANOTHER version must
+				// have been rebuilt by the open, so serving it is a different symptom
+				lbl, _ := imageDB(pre, writes[:i]).Get([]byte("mstorage_version"))
+				latest := 0
+				if len(dT.avail) > 0 {
+					latest = dT.avail[len(dT.avail)-1]
+				}
+				if string(lbl) != fmt.Sprintf("1.1.0-%d", latest) {
+					kind = "indexstale"
+				}
 			}
 			if os.Getenv("VERIF_DEBUG") != "" {
 				fmt.Fprintf(os.Stderr, "DEBUG crash %s at %d/%d\nOLD %s\nNEW %s\nGOT %s\nWRITES:", kind, i, n, oldD, newD, d)
@@ -260,13 +287,15 @@ func (s *Sys) execCrash(op []string) string {
 				}
 				fmt.Fprintln(os.Stderr)
 			}
-			return fmt.Sprintf("cr(viol,op=%s,i=%d/%d,kind=%s);%s", op[0], i, n, kind, res)
+			note(kind, i)
+			continue
 		}
 		// retry the interrupted operation on the image
 		db := imageDB(pre, writes[:i])
 		t, err := s.openOn(db, fast)
 		if err != nil {
-			return fmt.Sprintf("cr(viol,op=%s,i=%d/%d,kind=loaderr2);%s", op[0], i, n, res)
+			note("loaderr2", i)
+			continue
 		}
 		retry := &Sys{cfg: s.cfg, db: db, base: db, tree: t, fastNow: fast}
 		ok := true
@@ -284,11 +313,13 @@ func (s *Sys) execCrash(op []string) string {
 		}
 		_ = retry.tree.Close()
 		if !ok {
-			return fmt.Sprintf("cr(viol,op=%s,i=%d/%d,kind=retryfail);%s", op[0], i, n, res)
+			note("retryfail", i)
+			continue
 		}
 		t2, err := s.openOn(db, fast)
 		if err != nil {
-			return fmt.Sprintf("cr(viol,op=%s,i=%d/%d,kind=retryloaderr);%s", op[0], i, n, res)
+			note("retryloaderr", i)
+			continue
 		}
 		d2 := dumpTree(t2).String()
 		_ = t2.Close()
@@ -303,8 +334,12 @@ func (s *Sys) execCrash(op []string) string {
 				}
 				fmt.Fprintln(os.Stderr)
 			}
-			return fmt.Sprintf("cr(viol,op=%s,i=%d/%d,kind=retrydiffers);%s", op[0], i, n, res)
+			note("retrydiffers", i)
+			continue
 		}
+	}
+	if len(kinds) > 0 {
+		return fmt.Sprintf("cr(viol,op=%s,i=%d/%d,kind=%s);%s", op[0], firstAt, n, strings.Join(kinds, "+"), res)
 	}
 	return fmt.Sprintf("cr(ok,n=%d);%s", n, res)
 }
